@@ -110,6 +110,9 @@ class FluxWorld:
         self.cancelled = []
         self.cancel_raises = set()
         self.queried = None
+        self.submitted = []     # [{"how", "command", "args", "attrs", "waitable", "urgency"}]
+        self.next_id = "f1"
+        self.submit_raises = None
 
 
 FLUX = FluxWorld()
@@ -135,6 +138,35 @@ def _cancel(handle, jobid):
     FLUX.cancelled.append(jobid)
 
 
+class _Jobspec:
+    """records what the adapter asks Flux for"""
+
+    def __init__(self, how, command, args):
+        object.__setattr__(self, "rec", {"how": how, "command": list(command), "args": dict(args),
+                                         "attrs": {}, "system": {}})
+
+    @classmethod
+    def from_nest_command(cls, command, **args):
+        return cls("nest", command, args)
+
+    @classmethod
+    def from_command(cls, command, **args):
+        return cls("command", command, args)
+
+    def setattr(self, key, value):
+        self.rec["system"][key] = value
+
+    def __setattr__(self, key, value):
+        self.rec["attrs"][key] = value
+
+
+def _submit(handle, jobspec, waitable=False, urgency=16):
+    if FLUX.submit_raises is not None:
+        raise FLUX.submit_raises
+    FLUX.submitted.append(dict(jobspec.rec, waitable=waitable, urgency=urgency))
+    return _JobID(FLUX.next_id)
+
+
 def make_flux():
     flux = types.ModuleType("flux")
     flux.Flux = _Handle
@@ -144,6 +176,8 @@ def make_flux():
     job.list = lst
     job.JobID = _JobID
     job.cancel = _cancel
+    job.JobspecV1 = _Jobspec
+    job.submit = _submit
     flux.job = job
     return flux
 
